@@ -348,9 +348,9 @@ PROVENANCE = [
 ]
 
 
-def check_provenance(ck, prog, prog_xz):
-    ck.rule("C13-PROV", "derived figures are computed from the members the format defines them by")
-    for (oid, target, fn, file, name, need, forbid, why) in PROVENANCE:
+def check_provenance(ck, prog, prog_xz, table=None, rule="C13-PROV", floor=4):
+    ck.rule(rule, "derived figures are computed from the members the format defines them by")
+    for (oid, target, fn, file, name, need, forbid, why) in (table if table is not None else PROVENANCE):
         pr = prog if target == "liblzma" else prog_xz
         f = pr.fn(fn, file, target=target if target != "liblzma" else None)
         ck.saw_function(f)
@@ -374,10 +374,10 @@ def check_provenance(ck, prog, prog_xz):
                        for x in ex.walk(r_))
         ok = all(any(has(r_, rc, fl) for r_ in rhs) for (rc, fl) in need) and \
             not any(has(r_, rc, fl) for r_ in rhs for (rc, fl) in forbid)
-        ck.ob("C13-PROV", oid, ok, common.where(f), "%s: %s = %s (%s)" % (fn, name, " / ".join(ex.show(r_) for r_ in rhs), why)
+        ck.ob(rule, oid, ok, common.where(f), "%s: %s = %s (%s)" % (fn, name, " / ".join(ex.show(r_) for r_ in rhs), why)
               if ok else "%s(): %s is computed as `%s`: %s" % (fn, name, " / ".join(ex.show(r_) for r_ in rhs), why),
               key="PROV:" + oid)
-    ck.floor("C13-PROV", 4)
+    ck.floor(rule, floor)
 
 
 def check_seek_state(ck, prog):
